@@ -39,10 +39,11 @@ pub fn run(out: &mut Out, thorough: bool, seed: u64, _extra: &[String]) {
         }
     }
     // ---- ciphertext level
-    let reps = if thorough { 30 } else { 5 };
+    let reps = if thorough { 36 } else { 6 };
     for rep in 0..reps {
         let lg = r.range(2, if thorough { 6 } else { 4 }) as usize; let n = 1usize << lg;
-        let kq = r.range(2, 3) as usize;
+        // the first rounds are directed: every scheme with two and with three data levels below the special prime
+        let kq = if rep < 3 { 3 } else if rep < 6 { 4 } else { r.range(2, 4) as usize };
         let bits: Vec<usize> = (0..kq).map(|_| *r.pick(&[40usize, 50, 59])).collect();
         let qs = match pick_primes(&mut r, n, &bits) { Some(v) => v, None => continue };
         let scheme = [SchemeType::BFV, SchemeType::BGV, SchemeType::CKKS][rep % 3];
@@ -56,7 +57,9 @@ pub fn run(out: &mut Out, thorough: bool, seed: u64, _extra: &[String]) {
             let enc = CKKSEncoder::new(s.ctx.clone());
             let vals: Vec<num_complex::Complex64> = (0..row).map(|i| num_complex::Complex64::new(i as f64 - 2.5, ((r.below(101) as f64) - 50.0) / 4.0)).collect();
             let scale = 2f64.powi(30);
-            let ct = s.encryptor.encrypt_new(&enc.encode_c64_array_new(&vals, None, scale));
+            for clevel in 0..s.levels().len().min(2) {
+            let mut ct = s.encryptor.encrypt_new(&enc.encode_c64_array_new(&vals, None, scale));
+            for _ in 0..clevel { ct = s.evaluator.mod_switch_to_next_new(&ct); }
             let p_special = *qs.last().unwrap();
             // worst-case key-switch noise (same formula as the driver's integer-level check) turned into a slot tolerance
             let qmax = *qs[..qs.len() - 1].iter().max().unwrap() as f64;
@@ -66,7 +69,7 @@ pub fn run(out: &mut Out, thorough: bool, seed: u64, _extra: &[String]) {
             for st in steps {
                 let res = match std::panic::catch_unwind(std::panic::AssertUnwindSafe(|| s.evaluator.rotate_vector_new(&ct, st, &all_keys))) { Ok(c) => c, Err(_) => { out.raw(&format!("!FAIL rotate_vector n={} step={} :: refused although the default keys generate every step # ckks", n, st)); continue } };
                 let g = hu::GaloisTool::new(lg).get_elt_from_step(st);
-                out.case(&format!("galois_ckks {} {} {} | {}", g, p_special, s.ct_case(&ct), s.ct_case(&res)), &format!("ckks-rot-n{}", n), || "ok".to_string());
+                out.case(&format!("galois_ckks {} {} {} | {}", g, p_special, s.ct_case(&ct), s.ct_case(&res)), &format!("ckks-rot-n{}-l{}", n, clevel), || "ok".to_string());
                 let dec = enc.decode_new(&s.decryptor.decrypt_new(&res));
                 let sh = ((st % row as isize) + row as isize) as usize % row;
                 let ok = (0..row).all(|i| (dec[i] - vals[(i + sh) % row]).norm() < tol);
@@ -76,9 +79,10 @@ pub fn run(out: &mut Out, thorough: bool, seed: u64, _extra: &[String]) {
             if n <= 16 { let g = 2 * n - 1; out.case(&format!("ks_op galois {} {} | {} | {} | {}", g, fl(&key_qs(&s)), s.ct_case(&ct), kskey_str(&s, all_keys.key(g)), s.ct_case(&s.evaluator.apply_galois_new(&ct, g, &all_keys))), "ks-ckks-conj", || "ok".to_string());
                 let g3 = 3; out.case(&format!("ks_op galois {} {} | {} | {} | {}", g3, fl(&key_qs(&s)), s.ct_case(&ct), kskey_str(&s, all_keys.key(g3)), s.ct_case(&s.evaluator.apply_galois_new(&ct, g3, &all_keys))), "ks-ckks-rot1", || "ok".to_string()); }
             let res = s.evaluator.complex_conjugate_new(&ct, &all_keys);
-            out.case(&format!("galois_ckks {} {} {} | {}", 2 * n - 1, p_special, s.ct_case(&ct), s.ct_case(&res)), &format!("ckks-conj-n{}", n), || "ok".to_string());
+            out.case(&format!("galois_ckks {} {} {} | {}", 2 * n - 1, p_special, s.ct_case(&ct), s.ct_case(&res)), &format!("ckks-conj-n{}-l{}", n, clevel), || "ok".to_string());
             let dec = enc.decode_new(&s.decryptor.decrypt_new(&res));
             if tol > 0.25 { out.raw("!NOTE conjugate slot check skipped: key-switch noise bound exceeds the scale"); } else if (0..row).all(|i| (dec[i] - vals[i].conj()).norm() < tol) { out.raw(&format!("!OK conjugate_slots n={} # ckks-slots", n)); } else { out.raw(&format!("!FAIL conjugate_slots n={} :: decoded slots are not the complex conjugates # ckks-slots", n)); }
+            }
             continue;
         }
         let benc = BatchEncoder::new(s.ctx.clone());
@@ -86,9 +90,9 @@ pub fn run(out: &mut Out, thorough: bool, seed: u64, _extra: &[String]) {
         let slots: Vec<u64> = (0..n).map(|_| r.below(t)).collect();
         let plain = benc.encode_new(&slots);
         let msg: Vec<u64> = { let mut v = plain.data().clone(); v.resize(n, 0); v };
-        for level in 0..s.levels().len().min(2) {
+        for level in 0..s.levels().len().min(3) {
             let mut ct = s.encryptor.encrypt_new(&plain);
-            if level == 1 { ct = s.evaluator.mod_switch_to_next_new(&ct); }
+            for _ in 0..level { ct = s.evaluator.mod_switch_to_next_new(&ct); }
             let lbits: f64 = s.level_qs(ct.parms_id()).iter().map(|&q| (q as f64).log2()).sum();
             let ratio_bits = { let p_sp = *qs.last().unwrap() as f64; let qm = *qs[..qs.len() - 1].iter().max().unwrap() as f64; (qm / p_sp).log2().max(0.0) };
             let pred0 = (lbits - lt - (n as f64).log2() - 32.0 - ratio_bits).floor() as i64;
@@ -124,7 +128,7 @@ pub fn run(out: &mut Out, thorough: bool, seed: u64, _extra: &[String]) {
             let ksk = s.keygen.create_keyswitching_key(kg2.secret_key(), false);
             let enc2 = Encryptor::new(s.ctx.clone()).set_secret_key(kg2.secret_key().clone());
             let mut ct2 = Ciphertext::new(); enc2.encrypt_symmetric(&plain, &mut ct2);
-            if level == 1 { ct2 = s.evaluator.mod_switch_to_next_new(&ct2); }
+            for _ in 0..level { ct2 = s.evaluator.mod_switch_to_next_new(&ct2); }
             let res = s.evaluator.apply_keyswitching_new(&ct2, &ksk);
             out.case(&format!("prog {} {} {}", s.ct_case(&res), pred0, fl(&trim(&msg))), &format!("{}-keyswitch-l{}", scheme_name(scheme), level), || s.dec_str(&res));
         }
